@@ -75,7 +75,13 @@ pub fn check(q: &Query, text: &str, doc: &J, prog: bool, obs: &mut Obs) -> Res {
             json!({"query": text, "doc": doc.to_value(), "selected": strict.iter().map(|n| normalized_path(&n.loc())).collect::<Vec<_>>()})
         });
     }
+    let from_locs = |r: Result<Vec<Option<Loc>>, LibErr>| -> libx::LibRes {
+        r.map(|ls| ls.into_iter().map(|l| libx::LibNode { loc: l, path: String::new(), val: Value::Null }).collect())
+    };
     let mut runs = vec![("query_with_path", libx::query_with_path(&v, &map, text))];
+    // the values-only entry point is a different code path for callers: same nodes expected
+    obs.eval(1);
+    runs.push(("query", from_locs(libx::query_vals(&v, &map, text))));
     if prog {
         obs.eval(1);
         runs.push(("js_path_process(programmatic AST)", libx::process(&v, &map, &libx::to_lib(q))));
@@ -301,6 +307,24 @@ fn large_flat(obs: &mut Obs, thorough: bool) -> Res {
     Ok(())
 }
 
+/// filter comparisons between wide structures taken from the document (sizes around 16 / 32 / 64 / 256)
+fn random_wide_compare(src: &mut Src, obs: &mut Obs) -> Res {
+    let (reference, items) = crate::props::c04::gen_wide_family(src);
+    let doc = J::Obj(vec![
+        ("items".to_string(), J::Arr(items.into_iter().map(|x| J::Obj(vec![("cfg".to_string(), x)])).collect())),
+        ("reference".to_string(), reference),
+    ])
+    .sorted();
+    let op = *src.pick(&[Op::Eq, Op::Ne, Op::Le, Op::Ge]);
+    let text = format!("$.items[?@.cfg {} $.reference]", op.text());
+    let q = match crate::recog::parse_ast(&text) {
+        Some(q) => q,
+        None => return Err(Failure::new("harness inconsistency: wide-compare query not recognised", json!({"query": text}))),
+    };
+    obs.label("wide-structure-comparison");
+    check(&q, &text, &doc, true, obs)
+}
+
 fn box_small(obs: &mut Obs, thorough: bool) -> Res {
     small_box(obs, thorough, |q, t, d, o| check(q, t, d, true, o))
 }
@@ -323,21 +347,22 @@ pub fn prop() -> Prop {
                 kind: Kind::Random {
                     f: random_plain,
                     quick: 192_000, thorough: 3_840_000,
-                    len: 400,
+                    len: 1000,
                 },
             },
+            Sub { name: "random-wide-compare", kind: Kind::Random { f: random_wide_compare, quick: 8_000, thorough: 160_000, len: 900 } },
             Sub {
                 name: "random-special",
                 kind: Kind::Random {
                     f: random_special,
                     quick: 64_000, thorough: 1_280_000,
-                    len: 400,
+                    len: 1000,
                 },
             },
         ],
         direct: Some(direct),
         selftest: Some(crate::rfc::selftest),
-        fuzz: Some(FuzzSpec { target: "evaldiff", runs: 10000, max_len: 400, tag: "C01", seed_corpus: None }),
+        fuzz: Some(FuzzSpec { target: "evaldiff", runs: 10000, max_len: 1000, tag: "C01", seed_corpus: None }),
         insertion_order_stage: true,
     }
 }
